@@ -95,6 +95,9 @@ impl<'a> FieldEntry<'a> {
     #[verus_spec(r => ensures uses(&r) == Set::<int>::empty())]
     fn member(&self) -> TokenStream { unimplemented!() }
 }
+//@ fn item_type.rs build_debug_ref_def
+//@   attr #[verus_verify]
+//@ end
 //@ fn item_type.rs build_debug_expr
 //@   attr #[verus_verify]
 //@   spec r => requires forall|f: &FieldEntry| to_expr.requires((f,)),
